@@ -114,3 +114,56 @@ SUBS = [
         rule='2-24 (64) frames x 1-4 (8) atoms in all lattices, per-atom constant drift; MSD vs O(T^2) direct definition on unwrapped Cartesian positions, distances, tracer diffusivity for 1-3 dimensions',
         n={'quick': 250, 'thorough': 3500}, shards={'quick': 8, 'thorough': 16}),
 ]
+
+
+# ----------------------------------------------------------------------------- every frame count
+PATTERNS = ['ballistic', 'zigzag', 'single-hop', 'late-hop', 'stationary-then-run']
+
+
+class EnumFrames:
+    """Every trajectory length T in 2..Tmax (all FFT padding regimes: powers of two, one below/above) x 5 deterministic motion patterns."""
+
+    def __init__(self, tmax):
+        self.tmax = tmax
+
+    def size(self, tier):
+        return (self.tmax[tier] - 1) * len(PATTERNS)
+
+    def case_at(self, tier, idx):
+        T = 2 + idx // len(PATTERNS)
+        pat = PATTERNS[idx % len(PATTERNS)]
+        t = np.arange(T, dtype=float).reshape(T, 1, 1)
+        v = np.array([[[0.21, -0.13, 0.07], [-0.05, 0.24, 0.19]]])
+        if pat == 'ballistic':
+            path = t * v
+        elif pat == 'zigzag':
+            path = (t % 2) * v * 1.5 + t * v * 0.1
+        elif pat == 'single-hop':
+            path = (t >= 1) * v * 1.9
+        elif pat == 'late-hop':
+            path = (t >= T - 1) * v * 1.9
+        else:
+            path = np.maximum(t - T // 2, 0) * v
+        path = path + np.array([[[0.97, 0.02, 0.5], [0.0, 0.999, 0.25]]])
+        lat = gen.fixed_lattice(['triclinic', 'cubic', 'hexagonal', 'monoclinic'][T % 4], ['lower', 'rot', 'pmg'][T % 3])
+        return {'path': path.tolist(), 'lattice': lat, 'symbols': ['Li', 'Li'], 'time_step': 2e-15, 'temperature': 300.0,
+                'species_kind': 'Species', 'form': ['wrapped', 'unwrapped', 'displacements'][(T // 4) % 3], 'dims_order': [3, 1, 2], 'pattern': pat}
+
+
+EF = EnumFrames({'quick': 260, 'thorough': 1100})
+
+
+def run_frames(case):
+    info = run(case)
+    info['labels'] = info['labels'] + ['pattern-' + case['pattern']]
+    T = len(case['path'])
+    if T & (T - 1) == 0:
+        info['labels'].append('frames-power-of-two')
+    info['nontrivial'] = True
+    return info
+
+
+SUBS.append(
+    Sub(name='enum-frame-counts', kind='enum', run=run_frames, size=EF.size, case_at=EF.case_at, exhaustive=True,
+        rule='complete enumeration: every trajectory length 2..260 (quick) / 2..1100 (thorough) frames x 5 deterministic motion patterns (ballistic, zigzag, single hop at the first / last step, rest-then-run) of two atoms that cross cell faces, cell family/orientation/input form cycled with the length; MSD at every lag vs the direct definition, distances, tracer diffusivity',
+        shards={'quick': 16, 'thorough': 16}))
